@@ -96,6 +96,8 @@ var baseTree = []treeSpec{
 	{rel: "fsroot/var/lib", dir: true, mode: 0o755, mtime: 1600002514},
 	{rel: "fsroot/var/lib/logrotate", dir: true, mode: 0o755, mtime: 1600002515},
 	{rel: "fsroot/var/lib/logrotate/status", body: "s", mode: 0o644, mtime: 1600002516},
+	{rel: "fsroot/var/log", dir: true, mode: 0o755, mtime: 1600002520},
+	{rel: "fsroot/var/log/app.log", body: "l", mode: 0o640, mtime: 1600002521},
 	{rel: "fsroot/opt", dir: true, mode: 0o755, mtime: 1600002517},
 	{rel: "fsroot/opt/app", dir: true, mode: 0o755, mtime: 1600002518},
 	{rel: "fsroot/opt/app/bin", body: "b", mode: 0o755, mtime: 1600002519},
